@@ -87,6 +87,20 @@ Proof.
   - intros -> rp. cbn [app]. unfold request_path. rewrite andb_false_r. exact Hp.
 Qed.
 
+(* the same, end to end on the regenerated code: get_environ's PATH_INFO fed into the regenerated value flow of
+   _handle_request *)
+Lemma c18_request_line_regenerated : forall base p h query, sane_prefix base -> sane_path p ->
+  UrlGen.make_href base p = Some h ->
+  UrlGen.request_path true base (pathinfo_of_target h) = p
+  /\ UrlGen.request_path true base (pathinfo_of_target (h ++ qmark :: query)) = p
+  /\ (base = [] -> forall rp, UrlGen.request_path rp base (pathinfo_of_target h) = p).
+Proof.
+  intros base p h query Hb Hp H.
+  destruct (c18_request_line base p h Hb Hp H) as (H1 & H2 & H3 & H4).
+  rewrite !Gen_request_path_eq, H2, H1. split; [exact H3|split; [exact H3|]].
+  intros Hbase rp. rewrite Gen_request_path_eq. exact (H4 Hbase rp).
+Qed.
+
 (* the prefix was already removed in front of Radicale (WSGI container, or a proxy that strips it) *)
 Definition ambiguous (rp : bool) (base p : pystr) : bool := rp && nonempty base && under_prefix base p.
 
